@@ -603,7 +603,8 @@ def _type_to_json(t: Type[Any]) -> Dict[str, str]:
 def _builtin_function_to_json(f: Any) -> Dict[str, str]:
   return {
       JSONConvertible.TYPE_NAME_KEY: 'function',
-      'name': f'builtins.{f.__name__}'
+      # (e.g. `len` is `builtins.len`, `math.sqrt` is a builtin of `math`.)
+      'name': f'{getattr(f, "__module__", None) or "builtins"}.{f.__name__}'
   }
 
 
